@@ -2,7 +2,9 @@
 # usage: tools/try_seed.sh <PID> <patch file>   -- applies patch to /repo, runs quick check, reverts
 PID=$1; PATCH=$2
 git -C /repo apply "$PATCH" || exit 2
+cp evidence/$PID.json /tmp/try_seed_evidence.json 2>/dev/null
 ./check $PID quick > /tmp/try_seed.out 2>&1; rc=$?
 git -C /repo checkout -- . 
+cp /tmp/try_seed_evidence.json evidence/$PID.json 2>/dev/null; rm -f /tmp/try_seed_evidence.json
 grep -E "VIOLATION|UNDECIDED|KNOWN|property=" /tmp/try_seed.out | head -${3:-12}
 echo "exit=$rc"
